@@ -99,7 +99,10 @@ def run_case(ctx, case, seed, observed, mode=None, tie=False, reuse=None, inst=N
     if inst is not None and case.family not in ("pool", "pool_ma"):
         ctx.count("random_state_instance_" + case.family)
         case = InstCase(case, seed)
-    if inst == "history":
+    if inst in ("prefit", "prefit-far"):
+        findings, info = oracles.repro_pool_prefit(case, mode, seed, far=(inst == "prefit-far"))
+        ctx.count("prefit_models_" + ("not_applicable" if info.get("not_applicable") else inst))
+    elif inst == "history":
         findings, info = oracles.repro_pool_history(case, mode, seed)
         ctx.count("used_object_vs_fresh" + ("_skipped" if str(info.get("raised", "")).startswith("Skip") else ""))
     elif inst is not None and case.family in ("pool", "pool_ma"):
@@ -229,6 +232,11 @@ def correspond(ctx):
                     run_case(ctx, case, seed, observed, mode=mode, inst="history")
                 for mode in [m for m in case.cand_modes if m != "none"][:1 if not ctx.thorough else 2]:
                     run_case(ctx, case, seed, observed, mode=mode, inst="all-labeled")
+                if oracles.has_fit_flag(case):
+                    # fit flag False, models fitted by the caller (plain data, and candidates far from every label: ties)
+                    for mode in (case.cand_modes if ctx.thorough else modes[:1]):
+                        run_case(ctx, case, seed, observed, mode=mode, inst="prefit")
+                        run_case(ctx, case, seed, observed, mode=mode, inst="prefit-far")
                 if lead:
                     for mode in case.cand_modes[:2]:
                         run_case(ctx, case, seed, observed, mode=mode, tie=True)
@@ -253,6 +261,9 @@ def compare_with_summaries(ctx, g, observed):
         if cls.startswith("_"):
             continue
         hist_flipped = getattr(ctx, "hist_flipped", set())
+        kinds = kinds - {"prefit-models-consumed"}   # state of the caller's fitted models: not a draw site of the strategy
+        if not kinds:
+            continue
         if kinds <= {"history-dependence"}:
             # state carried between queries: the business of the `query_<Class>_historyFree` obligations
             if cls not in hist_flipped and cls not in ctx.notes.get("query_history_obligations", {}).get("negated_classes", []):
